@@ -669,6 +669,28 @@ def walk_cases(ctx, mode, depth, label, sample=0):
     return allf
 
 
+def walk_random_stage(ctx, n, runs, label):
+    """Random (graph, selector, control) cases beyond the enumerated bounds: written by the Go side without expectations,
+    evaluated by TLC on the walk machine of Traversal.tla (Mode = "file"), replayed like every other walk case."""
+    jobs, files = [], []
+    for i in range(runs):
+        cases = os.path.join(ctx.scratch, "wg-%s-%d.ndjson" % (label, i))
+        ctx.vh_run(["walk-gen", "-n", str(n), "-seed", str(ctx.seed * 1000 + i * 17 + len(label)), "-out", cases])
+        f = os.path.join(ctx.scratch, "wg-%s-%d-out.ndjson" % (label, i))
+        files.append(f)
+        jobs.append(dict(module="TraversalGen", cfg=tr_cfg("file", 0), capture=f, workers=2, heap="3g", trace_file=cases,
+                         timeout=3000))
+    ctx.tlc_parallel(jobs, max_procs=8)
+    allf = os.path.join(ctx.scratch, "wg-%s-all.ndjson" % label)
+    with open(allf, "w") as out:
+        for f in files:
+            out.write(open(f).read())
+            os.remove(f)
+    args = ["walk", "-in", allf, "-controls"]
+    ctx.absorb(ctx.vh_run(args, timeout=3000), args, label="walk/random-" + label)
+    os.remove(allf)
+
+
 @prop("C07")
 def c07(ctx):
     quick = ctx.tier == "quick"
@@ -685,6 +707,8 @@ def c07(ctx):
         f = walk_cases(ctx, "plain3", 3, "plain3", sample=ctx.seed % 23)
         args = ["walk", "-in", f]
         ctx.absorb(ctx.vh_run(args, timeout=3000), args, label="walk/plain3")
+    # random cases beyond the bounds (graphs of up to 4 blocks, selectors up to AST depth 5, every clause kind)
+    walk_random_stage(ctx, 2500 if quick else 8000, 1 if quick else 8, "c07")
     return ctx.finish(
         "model_checking",
         rule="cases = every selector of the language that compiles up to AST depth 2 (all clause kinds: matcher, subset "
@@ -693,7 +717,10 @@ def c07(ctx):
              "the walk machine of Traversal.tla gives the visit sequence (path, reason, node) and the load sequence, "
              "traversal.WalkAdv / WalkMatching must produce exactly these; the same selectors are walked again with "
              "LinkVisitOnlyOnce on the graphs that have links (a link first met where the selector does not explore it must "
-             "still be loaded where it does); non-trivial = more than one visit; distinct = distinct (graph, selector, config)",
+             "still be loaded where it does); plus seeded random cases beyond these bounds -- graphs of up to 4 distinct blocks "
+             "and depth 4, selectors up to AST depth 5 over every clause kind including ExploreInterpretAs and ones that must "
+             "not compile, one random control in half of them -- written by the Go side WITHOUT expectations and evaluated by "
+             "TLC on the same walk machine; non-trivial = more than one visit; distinct = distinct (graph, selector, config)",
         assumptions=["selector semantics = the transcription in Selector.tla (the IPLD selector fixtures are absent from the checkout)",
                      "blocks are stored as dag-cbor; linked blocks keep maps in canonical order"],
         exhaustive=True)
@@ -730,6 +757,7 @@ def c15(ctx):
     f = walk_cases(ctx, "ctl", 1, "ctl")
     args = ["walk", "-in", f, "-controls"]
     ctx.absorb(ctx.vh_run(args, timeout=3000), args, label="walk/controls")
+    walk_random_stage(ctx, 2500 if ctx.tier == "quick" else 8000, 1 if ctx.tier == "quick" else 8, "c15")
     if ctx.tier != "quick":   # every control over a hashed sample (1/41, by seed) of ALL selectors of AST depth 2
         f = walk_cases(ctx, "ctl2", 2, "ctl2", sample=ctx.seed % 41)
         args = ["walk", "-in", f, "-controls"]
